@@ -292,6 +292,208 @@ Section Sound.
   Qed.
 End Sound.
 
+(* ---------- completeness for notes nobody references ------------------------------------------- *)
+
+Lemma filter_res_mem {A} (f : A -> res bool) l ys y :
+  filter_res f l = Ok ys -> In y l -> f y = Ok true -> In y ys.
+Proof.
+  revert ys. induction l as [|x l IH]; intros ys H Hy Hf; [destruct Hy|].
+  cbn in H. apply bind_ok in H as [r [Hr H]]. apply bind_ok in H as [b [Hb H]]. injection H as <-.
+  destruct Hy as [-> | Hy].
+  - rewrite Hf in Hb. injection Hb as <-. now left.
+  - specialize (IH r Hr Hy Hf). destruct b; [now right | exact IH].
+Qed.
+
+Lemma concat_res_mem {A} (l : list (res (list A))) ys r :
+  concat_res l = Ok ys -> In r l -> exists xs, r = Ok xs /\ incl xs ys.
+Proof.
+  revert ys. induction l as [|r0 l IH]; intros ys H Hr; [destruct Hr|].
+  cbn in H. apply bind_ok in H as [x [-> H]]. apply bind_ok in H as [z [Hz H]]. injection H as <-.
+  destruct Hr as [<- | Hr].
+  - exists x. split; [reflexivity|]. intros y Hy. apply in_app_iff. now left.
+  - destruct (IH z Hz Hr) as [xs [-> I]]. exists xs. split; [reflexivity|].
+    intros y Hy. apply in_app_iff. right. now apply I.
+Qed.
+
+Lemma path_cmp_eq p : forall q, path_cmp p q = Eq -> p = q.
+Proof.
+  induction p as [|x p IH]; intros [|y q]; cbn; try discriminate; [reflexivity|].
+  destruct (Nat.compare x y) eqn:E; try discriminate. apply Nat.compare_eq in E. subst.
+  intros H. f_equal. now apply IH.
+Qed.
+
+Lemma insert_path_mem p q l : p = q \/ In p l -> In p (insert_path q l).
+Proof.
+  induction l as [|x l IH]; cbn.
+  - intros [-> | []]. now left.
+  - destruct (path_cmp q x) eqn:E.
+    + apply path_cmp_eq in E. subst x. cbn. intuition.
+    + cbn. intuition.
+    + cbn. intuition.
+Qed.
+
+Lemma sort_paths_mem p l : In p l -> In p (sort_paths l).
+Proof.
+  unfold sort_paths. induction l as [|x l IH]; cbn; [tauto|].
+  intros [-> | H]; apply insert_path_mem; auto.
+Qed.
+
+Lemma to_parent_mono a : forall fuel id r, to_parent fuel a id = Ok r -> to_parent (S fuel) a id = Ok r.
+Proof.
+  induction fuel as [|f IH]; intros id r H; [discriminate|].
+  cbn [to_parent] in H. change (to_parent (S (S f)) a id) with
+    (match get a id with
+     | None => Panic "arena index out of bounds"
+     | Some n =>
+         match prev_of n with
+         | None => Ok None
+         | Some p =>
+             match get a p with
+             | None => Panic "arena index out of bounds"
+             | Some pn =>
+                 let child := match g_kind pn with
+                              | KDocument _ | KSection _ | KQuote | KBList | KOList => g_child pn
+                              | _ => None
+                              end in
+                 if onat_eqb child (Some id) then Ok (Some p) else to_parent (S f) a p
+             end
+         end
+     end).
+  destruct (get a id) as [n|]; [|exact H]. destruct (prev_of n) as [p|]; [|exact H].
+  destruct (get a p) as [pn|]; [|exact H]. cbv zeta in *.
+  match goal with |- context [if ?c then _ else _] => destruct c end; [exact H | now apply IH].
+Qed.
+
+(* the note key found along the prev links is the key of the document to_parent stops at *)
+Lemma node_key_of_parent a k : forall fuel x d,
+  to_parent fuel a x = Ok (Some d) -> kind_at a d = Ok (KDocument k) ->
+  graph_node_key (S fuel) a x = Ok k.
+Proof.
+  induction fuel as [|f IH]; intros x d H Hd; [discriminate|].
+  cbn [to_parent] in H. destruct (get a x) as [n|] eqn:Hn; [|discriminate].
+  destruct (prev_of n) as [p|] eqn:Hp; [|discriminate].
+  destruct (get a p) as [pn|] eqn:Hpn; [|discriminate]. cbv zeta in H.
+  assert (Hnd : forall key, g_kind n <> KDocument key).
+  { intros key E. unfold prev_of in Hp. rewrite E in Hp. discriminate. }
+  change (graph_node_key (S (S f)) a x) with
+    (match get a x with
+     | None => Panic "arena index out of bounds"
+     | Some n => match g_kind n with
+                 | KDocument k => Ok k
+                 | _ => match prev_of n with Some p => graph_node_key (S f) a p | None => Panic "to have a prev_id" end
+                 end
+     end).
+  rewrite Hn.
+  assert (G : graph_node_key (S f) a p = Ok k).
+  { match type of H with context [if ?c then _ else _] => destruct c end.
+    - injection H as ->. unfold kind_at in Hd. rewrite Hpn in Hd. injection Hd as Hd.
+      cbn [graph_node_key]. rewrite Hpn, Hd. reflexivity.
+    - now apply (IH p d). }
+  destruct (g_kind n); try (rewrite Hp; exact G). exfalso. eapply Hnd; reflexivity.
+Qed.
+
+Section Complete.
+  Variable filt : bool.
+  Variable s : gstate.
+  Let a := gr_arena (gs_graph s).
+  Hypothesis B : bwd a.
+
+  (* the chain of headings from the top-level heading below document [d] down to [h] *)
+  Inductive hchain : nat -> list nat -> nat -> Prop :=
+  | hc_top x d k : sec s x -> parent_of a x = Ok (Some d) -> doc s d k -> hchain x [x] d
+  | hc_sub x p q d : sec s x -> parent_of a x = Ok (Some p) -> hchain p q d -> hchain x (q ++ [x]) d.
+
+  Lemma heading_hchain h : heading s h -> exists q d, hchain h q d.
+  Proof.
+    induction 1 as [x d k Hx Hp Hd | x p Hx Hp _ [q [d IH]]].
+    - exists [x], d. econstructor; eauto.
+    - exists (q ++ [x]), d. econstructor; eauto.
+  Qed.
+
+  Lemma hchain_last h q d : hchain h q d -> lastn q = Some h.
+  Proof. destruct 1; [reflexivity | apply lastn_snoc]. Qed.
+
+  Lemma hchain_lt h : h < length a -> forall p, parent_of a h = Ok (Some p) -> p < h.
+  Proof.
+    intros Hh p Hp. destruct (parent_of_ok a h B Hh) as [r [E R]]. fold a in Hp. rewrite Hp in E.
+    injection E as <-. now apply R.
+  Qed.
+
+  Lemma sec_lt x : sec s x -> x < length a.
+  Proof.
+    intros [l H]. unfold kind_at in H. fold a in H. destruct (get a x) eqn:E; [|discriminate].
+    apply nth_error_Some. unfold get in E. congruence.
+  Qed.
+
+  Lemma hchain_in_paths h q d : hchain h q d -> forall fuel visited ps,
+    (forall v, In v visited -> h < v) ->
+    paths_for_node filt fuel s h visited = Ok ps -> In q ps.
+  Proof.
+    induction 1 as [x d k [l Hx] Hp Hd | x p q d [l Hx] Hp Hc IH]; intros fuel visited ps Hv H;
+      (destruct fuel as [|f]; [discriminate|]); cbn [paths_for_node] in H;
+      (destruct (mem x visited) eqn:M; [apply mem_In in M; specialize (Hv x M); lia|]);
+      unfold a in *; cbv zeta in H; rewrite Hx in H; cbn [bind] in H; rewrite Hp in H; cbn [bind] in H;
+      apply bind_ok in H as [ps0 [H0 H]]; injection H as <-.
+    - apply in_app_iff. right. now left.
+    - apply in_app_iff. left. apply in_map_iff. exists q. split; [reflexivity|].
+      eapply IH; [|exact H0]. intros v [<- | Hin].
+      + apply hchain_lt; [apply sec_lt; eexists; exact Hx | exact Hp].
+      + specialize (Hv v Hin). assert (p < x) by (apply hchain_lt; [apply sec_lt; eexists; exact Hx | exact Hp]). lia.
+  Qed.
+
+  Lemma hchain_not_in_list h q d : hchain h q d -> forall fuel, S h < fuel -> is_in_list fuel a h = Ok false.
+  Proof.
+    induction 1 as [x d k [l Hx] Hp Hd | x p q d [l Hx] Hp Hc IH]; intros fuel Hf;
+      (destruct fuel as [|f]; [lia|]); cbn [is_in_list]; unfold a in *; rewrite Hx; cbn [bind is_listk is_documentk];
+      rewrite Hp; cbn [bind].
+    - destruct f as [|f']; [lia|]. cbn [is_in_list]. unfold doc in Hd. rewrite Hd. reflexivity.
+    - apply IH. assert (p < x) by (apply hchain_lt; [apply sec_lt; eexists; exact Hx | exact Hp]). lia.
+  Qed.
+
+  Lemma hchain_first h q d : hchain h q d ->
+    exists top rest k, q = top :: rest /\ sec s top /\ parent_of a top = Ok (Some d) /\ doc s d k.
+  Proof.
+    induction 1 as [x d k Hx Hp Hd | x p q d Hx Hp Hc [top [rest [k [-> R]]]]].
+    - exists x, [], k. auto.
+    - exists top, (rest ++ [x]), k. auto.
+  Qed.
+
+  (* C18_complete_unreferenced *)
+  Theorem complete_unreferenced ps h q d k :
+    graph_to_paths filt s = Ok ps -> hchain h q d -> doc s d k -> path_refs filt s k = Ok [] ->
+    In q ps /\ lastn q = Some h.
+  Proof.
+    intros H Hc Hd Hrefs. split; [|eapply hchain_last; eauto].
+    unfold graph_to_paths in H. fold a in H.
+    apply bind_ok in H as [starts [Hstarts H]]. apply bind_ok in H as [all [Hall H]].
+    apply bind_ok in H as [kept [Hkept H]]. injection H as <-.
+    assert (Hsec : sec s h) by (destruct Hc; assumption).
+    assert (Hlt : h < length a) by (apply sec_lt; exact Hsec).
+    (* h is a start node *)
+    assert (Hst : In h starts).
+    { eapply filter_res_mem; [exact Hstarts | apply in_seq; lia |].
+      destruct Hsec as [l Hl]. fold a in Hl. rewrite Hl. cbn [bind is_emptyk].
+      rewrite (hchain_not_in_list _ _ _ Hc); [reflexivity | unfold nav_fuel; unfold a in *; lia]. }
+    (* its walk returns q *)
+    destruct (concat_res_mem _ _ (paths_for_node filt (paths_fuel a) s h []) Hall) as [xs [Hxs Hincl]].
+    { apply in_map_iff. exists h. auto. }
+    assert (Hq : In q all).
+    { apply Hincl. apply (hchain_in_paths _ _ _ Hc (paths_fuel a) [] xs); [intros v Hv; destruct Hv | exact Hxs]. }
+    (* q passes the root filter *)
+    apply sort_paths_mem. eapply filter_res_mem; [exact Hkept | exact Hq |].
+    destruct (hchain_first _ _ _ Hc) as [top [rest [k' [-> [Htop [Hpar Hd']]]]]].
+    unfold doc in Hd, Hd'. rewrite Hd in Hd'. injection Hd' as <-.
+    unfold root_ok. fold a.
+    assert (Hkey : graph_node_key (nav_fuel a) a top = Ok k).
+    { assert (Htl : top < length a) by (apply sec_lt; exact Htop).
+      destruct (to_parent_ok a B (length a) top Htl Htl) as [r [E _]].
+      pose proof (to_parent_mono a _ _ _ E) as E'. unfold parent_of, nav_fuel in Hpar. rewrite Hpar in E'.
+      injection E' as <-. unfold nav_fuel. eapply node_key_of_parent; eauto. }
+    rewrite Hkey. cbn [bind]. rewrite Hrefs. cbn [bind]. rewrite Hpar. cbn [bind].
+    fold a in Hd. rewrite Hd. reflexivity.
+  Qed.
+End Complete.
+
 (* ---------- C18_search_bound ------------------------------------------------------------------------- *)
 
 Section Sorting.
